@@ -33,6 +33,13 @@ LossMinimizationEstimator / CvxpyLossMinimizationEstimator .calc_estimate_sequen
 one configuration + one optimisation per data set, its value appended unconditionally (no break / continue / conditional or second append),
 result built from that list, calc_estimate delegating with [empi_dists]  ->  gen_estimate_sequence / gen_cvx_estimate_sequence = map.
 
+ProjectedGradientDescentBacktracking.optimize, before the loop: start-point selection and the default-mu chain -> gen_start, gen_mu
+(Python truthiness of `algorithm_option.mu`: not None and != 0; np.sqrt of an integer -> oracle sqrtn).
+CvxpyMinimizationAlgorithm.optimize: which types need num_outcomes, which mode_constraint strings attach the (sparse) PSD constraints, which solver
+call each name_solver string selects (SCS must receive eps=eps_tol) -> gen_cvx_needs_outcomes / gen_cvx_constrained / gen_cvx_solver; the objective
+(cp.Minimize(self.loss.value_cvxpy(var))), the problem (cp.Problem(objective, constraints)) and the result fields (var.value, problem.value) are
+checked verbatim.
+
 usage: c11_py2coq.py <repo> <out.v>"""
 import ast, os, sys
 
@@ -841,6 +848,144 @@ def tr_estimator(tree, cls, coq_name, configure_calls, optimize_src, value_attr,
             "  map configure_and_optimize empi_dists_sequence." % coq_name)
 
 
+
+# ------------------------------------------------------------------ optimize: start point and default-mu selection (before the loop)
+def tr_start_and_mu(fdef):
+    """the two if-chains before the loop of ProjectedGradientDescentBacktracking.optimize:
+         x_prev = origin object's variable            if algorithm_option.var_start is None   else   algorithm_option.var_start
+         mu     = algorithm_option.mu                 if algorithm_option.mu  (Python truthiness: not None and != 0)
+                  3 / (2*np.sqrt(len(var_start)))     elif var_start is not None
+                  3 / (2*np.sqrt(self._qt.num_variables))   elif self._qt (truthiness: not None)        else raise ValueError"""
+    body = strip_doc(fdef.body)
+    loop_at = next(i for i, st in enumerate(body) if isinstance(st, ast.For))
+    pre = body[:loop_at]
+    start = [st for st in pre if isinstance(st, ast.If) and ast.unparse(st.test) == "algorithm_option.var_start is None"]
+    if len(start) != 1:
+        fail(fdef, "start-point selection not found")
+    st = start[0]
+    origin = "x_prev = self._qt.generate_empty_estimation_obj_with_setting_info().generate_origin_obj().to_var()"
+    if [ast.unparse(x) for x in st.body] != [origin] or [ast.unparse(x) for x in st.orelse] != ["x_prev = algorithm_option.var_start"]:
+        fail(st, "start-point selection is %s / %s" % ([ast.unparse(x) for x in st.body], [ast.unparse(x) for x in st.orelse]))
+    mus = [x for x in pre if isinstance(x, ast.If) and ast.unparse(x.test) == "algorithm_option.mu"]
+    if len(mus) != 1:
+        fail(fdef, "mu selection not found")
+
+    def num(e):
+        if isinstance(e, ast.Constant) and isinstance(e.value, int) and not isinstance(e.value, bool) and 1 <= e.value <= 4:
+            return "(C11_nat_F F %d)" % e.value
+        if isinstance(e, ast.BinOp) and isinstance(e.op, ast.Div):
+            return "(kdiv F %s %s)" % (num(e.left), num(e.right))
+        if isinstance(e, ast.BinOp) and isinstance(e.op, ast.Mult):
+            return "(cmul F %s %s)" % (num(e.left), num(e.right))
+        if isinstance(e, ast.Call) and ast.unparse(e.func) == "np.sqrt" and len(e.args) == 1 and not e.keywords:
+            a = ast.unparse(e.args[0])
+            if a == "len(algorithm_option.var_start)":
+                return "(sqrtn start_len)"
+            if a == "self._qt.num_variables":
+                return "(sqrtn qt_nvars)"
+        fail(e, "expression in the default mu: %s" % ast.unparse(e))
+
+    def chain(node):
+        t = ast.unparse(node.test)
+        if len(node.body) != 1 or not (isinstance(node.body[0], ast.Assign) and ast.unparse(node.body[0].targets[0]) == "mu"):
+            fail(node, "branch of the mu selection")
+        val = node.body[0].value
+        if len(node.orelse) == 1 and isinstance(node.orelse[0], ast.If):
+            rest = chain(node.orelse[0])
+        elif len(node.orelse) == 1 and isinstance(node.orelse[0], ast.Raise):
+            rest = "None"
+        else:
+            fail(node, "end of the mu selection")
+        if t == "algorithm_option.mu":
+            if ast.unparse(val) != "algorithm_option.mu":
+                fail(node, "explicit mu branch")
+            return "(match mu_opt with Some mu_given => if negb (keqb F mu_given (c0 F)) then Some mu_given else %s | None => %s end)" % (rest, rest)
+        if t == "algorithm_option.var_start is not None":
+            return "(match start_len_opt with Some start_len => Some %s | None => %s end)" % (num(val), rest)
+        if t == "self._qt":
+            return "(match qt_nvars_opt with Some qt_nvars => Some %s | None => %s end)" % (num(val), rest)
+        fail(node, "test %s of the mu selection" % t)
+
+    return ("Definition gen_start {V : Type} (origin : V) (var_start : option V) : V :=\n  match var_start with None => origin | Some v => v end.\n\n"
+            "Definition gen_mu (sqrtn : nat -> F) (mu_opt : option F) (start_len_opt qt_nvars_opt : option nat) : option F :=\n  %s." % chain(mus[0]))
+
+
+# ------------------------------------------------------------------ CvxpyMinimizationAlgorithm.optimize: the dispatch around the solver call
+def tr_cvx_optimize(tree):
+    f = get_method(tree, "CvxpyMinimizationAlgorithm", "optimize")
+    body = strip_doc(f.body)
+    srcs = [ast.unparse(x) for x in body]
+    # fixed statements that must be present verbatim (the problem handed to the solver and what is read back)
+    for want in ("t = self.loss.type_estimate", "dim = self.loss.dim_system()", "c_sys = self.loss.composite_system",
+                 "objective = cp.Minimize(self.loss.value_cvxpy(var))", "problem = cp.Problem(objective, constraints)",
+                 "name_solver = self.option.name_solver", "verbose = self.option.verbose", "eps_tol = self.option.eps_tol",
+                 "result = CvxpyMinimizationResult(variable_value=var.value, loss_value=problem.value, comp_time=time_elapsed)", "return result"):
+        if srcs.count(want) != 1:
+            fail(f, "CvxpyMinimizationAlgorithm.optimize: expected exactly one `%s`" % want)
+    order = [srcs.index(w) for w in ("objective = cp.Minimize(self.loss.value_cvxpy(var))", "problem = cp.Problem(objective, constraints)")]
+    ifs = [x for x in body if isinstance(x, ast.If)]
+
+    def str_tests(test, var):
+        """t == 'a' or t == 'b'  ->  ['a', 'b']"""
+        parts = test.values if isinstance(test, ast.BoolOp) and isinstance(test.op, ast.Or) else [test]
+        out = []
+        for c in parts:
+            if not (isinstance(c, ast.Compare) and len(c.ops) == 1 and isinstance(c.ops[0], ast.Eq) and ast.unparse(c.left) == var
+                    and isinstance(c.comparators[0], ast.Constant) and isinstance(c.comparators[0].value, str)):
+                fail(test, "test %s" % ast.unparse(test))
+            out.append(c.comparators[0].value)
+        return out
+
+    def chain(node, var, branch):
+        conds = " || ".join('String.eqb %s "%s"' % (var.split(".")[-1] if "." in var else var, v) for v in str_tests(node.test, var))
+        a = branch(node.body)
+        if len(node.orelse) == 1 and isinstance(node.orelse[0], ast.If):
+            b = chain(node.orelse[0], var, branch)
+        elif len(node.orelse) == 1 and isinstance(node.orelse[0], ast.Raise):
+            b = "None"
+        else:
+            fail(node, "end of the chain on %s" % var)
+        return "(if (%s)%%bool then %s else %s)" % (conds, a, b)
+
+    # (1) variable: which types need num_outcomes
+    def br_var(stmts):
+        got = [ast.unparse(x) for x in stmts]
+        if got == ["num_outcomes = None", "var = generate_cvxpy_variable(t, dim)"]:
+            return "Some false"
+        if got == ["num_outcomes = self.loss.num_outcomes_estimate()", "var = generate_cvxpy_variable(t, dim, num_outcomes)"]:
+            return "Some true"
+        fail(stmts[0], "variable branch %s" % got)
+    v_if = [x for x in ifs if ast.unparse(x.test).startswith("t == ")]
+    c_if = [x for x in ifs if ast.unparse(x.test).startswith("self.option.mode_constraint == ")]
+    s_if = [x for x in ifs if ast.unparse(x.test).startswith("name_solver == ")]
+    if len(v_if) != 1 or len(c_if) != 1 or len(s_if) != 1:
+        fail(f, "expected one chain each on t, mode_constraint, name_solver")
+    if not (body.index(v_if[0]) < body.index(c_if[0]) < order[0] < order[1] < body.index(s_if[0])):
+        fail(f, "order of variable / constraints / objective / problem / solve")
+
+    def br_con(stmts):
+        got = [ast.unparse(x) for x in stmts]
+        if got == ["constraints = []"]:
+            return "Some false"
+        if got == ["constraints = generate_cvxpy_constraints_from_cvxpy_variable_with_sparsity(c_sys, t, var, num_outcomes)"]:
+            return "Some true"
+        fail(stmts[0], "constraint branch %s" % got)
+
+    def br_sol(stmts):
+        got = [ast.unparse(x) for x in stmts]
+        if got == ["problem.solve(solver=cp.SCS, verbose=verbose, eps=eps_tol)"]:
+            return 'Some "SCS(eps=eps_tol)"'
+        if got == ["params = {'MSK_DPAR_INTPNT_CO_TOL_DFEAS': eps_tol}", "problem.solve(solver=cp.MOSEK, verbose=verbose, mosek_params=params)"]:
+            return 'Some "MOSEK(DFEAS=eps_tol)"'
+        if got == ["problem.solve(solver=cp.CVXOPT, verbose=verbose)"]:
+            return 'Some "CVXOPT"'
+        fail(stmts[0], "solver branch %s" % got)
+    return ("Definition gen_cvx_needs_outcomes (t : string) : option bool :=\n  %s.\n\n"
+            "Definition gen_cvx_constrained (mode_constraint : string) : option bool :=\n  %s.\n\n"
+            "Definition gen_cvx_solver (name_solver : string) : option string :=\n  %s."
+            % (chain(v_if[0], "t", br_var), chain(c_if[0], "self.option.mode_constraint", br_con), chain(s_if[0], "name_solver", br_sol)))
+
+
 HEADER = """(* GENERATED by gen/c11_py2coq.py from the current source of quara -- do not edit *)
 From Coq Require Import Arith List Bool String ZArith.
 From QV.Core Require Import OF Sums Mat.
@@ -888,6 +1033,7 @@ def main():
         t1 = ast.parse(open(os.path.join(repo, "quara/minimization_algorithm/projected_gradient_descent_backtracking.py")).read())
         isd = tr_is_doing(get_method(t1, "ProjectedGradientDescentBacktracking", "_is_doing_for_alpha"))
         body, skel = tr_optimize(get_method(t1, "ProjectedGradientDescentBacktracking", "optimize"))
+        startmu = tr_start_and_mu(get_method(t1, "ProjectedGradientDescentBacktracking", "optimize"))
     except Unsupported as e:
         print("UNSUPPORTED[pgdb]: %s" % e)
         sys.exit(3)
@@ -898,6 +1044,8 @@ def main():
         cons = "\n\n".join([tr_constraints(t2, "generate_cvxpy_constraints_from_cvxpy_variable", "gen_constraints_dense"),
                             tr_constraints(t2, "generate_cvxpy_constraints_from_cvxpy_variable_with_sparsity", "gen_constraints_sparse")])
         t3 = ast.parse(open(os.path.join(repo, "quara/interface/cvxpy/qtomography/standard/loss_function.py")).read())
+        t6 = ast.parse(open(os.path.join(repo, "quara/interface/cvxpy/qtomography/standard/minimization_algorithm.py")).read())
+        cvxopt = tr_cvx_optimize(t6)
         losses = "\n\n".join([tr_cvx_loss(t3, "CvxpyRelativeEntropy", "gen_cvx_re"), tr_cvx_loss(t3, "CvxpyUniformSquaredError", "gen_cvx_se"),
                               tr_cvx_loss(t3, "CvxpyApproximateRelativeEntropyWithZeroProbabilityTerm", "gen_cvx_are")])
     except Unsupported as e:
@@ -917,7 +1065,7 @@ def main():
     except Unsupported as e:
         print("UNSUPPORTED[estimator]: %s" % e)
         sys.exit(5)
-    open(out, "w").write(HEADER % (numv + "\n\n" + cons + "\n\n" + est1 + "\n\n" + est2, isd, body, skel, losses))
+    open(out, "w").write(HEADER % (numv + "\n\n" + cons + "\n\n" + est1 + "\n\n" + est2 + "\n\n" + cvxopt, isd, body, skel, losses + "\n\n" + startmu))
 
 
 if __name__ == "__main__":
